@@ -69,9 +69,34 @@ func GenTLS(rng *rand.Rand, thorough bool, emit func(*Sx)) {
 						// handshake failure: 550, the plaintext session goes on
 						plain = append(plain, Raw{Kind: RawData, Data: []byte(in.later)})
 						f.expect(550)
-						rest := "NOOP\r\nQUIT\r\n"
-						f.expect(250, 221)
-						plain = append(plain, Raw{Kind: RawData, Data: []byte(rest)}, rawEOF)
+						// the plaintext session goes on, and it is still a PLAINTEXT session: STARTTLS is
+						// still offered, AUTH is neither advertised nor accepted unless insecure auth is allowed
+						g := &fconv{cfg: cfg}
+						g.cmd("NOOP", 250)
+						g.cmd("EHLO f.example", 250)
+						if insecure {
+							g.cmd("AUTH PLAIN AGEAYg==", 235)
+						} else {
+							g.cmd("AUTH PLAIN AGEAYg==", 523)
+						}
+						if h.name == "authed" {
+							g.codes[len(g.codes)-1] = 503
+						}
+						g.cmd("QUIT", 221)
+						f.expect(g.codes...)
+						if h.name == "none" {
+							caps := []string{"PIPELINING", "8BITMIME", "ENHANCEDSTATUSCODES", "CHUNKING", "STARTTLS"}
+							if insecure {
+								caps = append(caps, "AUTH PLAIN")
+							}
+							caps = append(caps, "SIZE")
+							cl := L()
+							for _, c := range caps {
+								cl.Add(XS(c))
+							}
+							f.add(L(A("expect-ehlo"), cl))
+						}
+						plain = append(plain, Raw{Kind: RawData, Data: g.out}, rawEOF)
 						emit(RunConv(ConvCase{Cfg: cfg, Script: f.script, Phases: [][]Raw{plain}, Extra: f.caseOf("C10", nil).Extra}))
 						continue
 					}
